@@ -62,6 +62,9 @@ type Opts struct {
 	// identifier, the authority\'s issuer name and serial number (OpenSSL\'s keyid,issuer:always form).
 	FullAKID bool
 	KeyUsage x509.KeyUsage // 0 = certSign|cRLSign for CAs, digitalSignature otherwise
+	// ExtOrder places the poison extension elsewhere than last: "poisonBeforeAki" (directly before the authority key
+	// identifier, other extensions follow) or "poisonFirst".  All other extensions keep the standard encoder's bytes.
+	ExtOrder string
 	// Unparsable tolerates a certificate the standard library's parser refuses (deliberately odd extensions that the
 	// repository's lax parser reports as non-fatal): Node.Cert stays nil, such a node cannot issue.
 	Unparsable bool
@@ -208,6 +211,51 @@ func (p *Node) Issue(o Opts) *Node {
 	key := o.Key
 	if key == nil {
 		key = NewKey(o.KeyType)
+	}
+	if o.ExtOrder != "" {
+		// issue once in the standard order, then again with every extension given explicitly in the wanted order
+		// (an extension named in ExtraExtensions replaces the one the encoder would generate)
+		o1 := o
+		o1.ExtOrder, o1.Key = "", key
+		if o1.Serial == 0 {
+			o1.Serial = nextSerial()
+		}
+		first := p.Issue(o1)
+		exts := append([]pkix.Extension{}, first.Cert.Extensions...)
+		pi, ai := -1, -1
+		for i, e := range exts {
+			if e.Id.Equal(OIDPoison) {
+				pi = i
+			}
+			if e.Id.Equal(asn1.ObjectIdentifier{2, 5, 29, 35}) {
+				ai = i
+			}
+		}
+		if pi < 0 {
+			panic("pki: ExtOrder needs a poison extension")
+		}
+		poison := exts[pi]
+		exts = append(exts[:pi:pi], exts[pi+1:]...)
+		at := 0
+		if o.ExtOrder == "poisonBeforeAki" {
+			if ai < 0 || ai > pi {
+				panic("pki: no authority key identifier before the poison")
+			}
+			at = ai
+		}
+		exts = append(exts[:at:at], append([]pkix.Extension{poison}, exts[at:]...)...)
+		o2 := o1
+		o2.Poison, o2.Extra, o2.FullAKID = "", exts, false
+		t2 := template(o2)
+		der, err := x509.CreateCertificate(rand.Reader, t2, p.Cert, key.Public(), p.Key)
+		if err != nil {
+			panic(err)
+		}
+		n := finish(o.CN, der, key, p)
+		if len(n.Cert.Extensions) != len(first.Cert.Extensions) {
+			panic("pki: reordering changed the extension set")
+		}
+		return n
 	}
 	t := template(o)
 	if o.FullAKID {
